@@ -7,11 +7,11 @@
    and the token <-> byte codec is a parameter of the model (Section variables
    [enc_tok]/[dec_tok]) with a state [St] (gob's registry of the types already
    described on this stream: the first use of a type emits extra messages).
-   One token is one or more gob MESSAGES (type definitions, then the value), so
-   [enc_tok] returns a list of byte strings.  The decoder has gob's three
-   failure outcomes: [DIoEOF] (io.EOF: the input ended where a message starts,
-   or a message was shorter than its value), [DUnexpectedEOF]
-   (io.ErrUnexpectedEOF: the input ended inside a message), [DMalformed] (any
+   One token is one or more gob messages (type definitions, then the value).
+   The decoder has gob's three failure outcomes: [DIoEOF] (io.EOF: the input
+   ended where a token starts, or a message was shorter than its value),
+   [DUnexpectedEOF] (io.ErrUnexpectedEOF: the input ended inside a token; gob
+   also reports this between the type definitions and the value), [DMalformed] (any
    other gob error, including a value of another type than the one asked for).
    [DStop] exists only for the correspondence: "the recorded run of the real gob
    decoder has no information beyond this point".
@@ -106,7 +106,7 @@ Fixpoint gob_into (k : kind) (view data : list (list Z)) : list (list Z) :=
 
 Section Codec.
 Variable St : Type.                                         (* gob stream state *)
-Variable enc_tok : St -> token -> list (list N) * St.       (* messages of one token *)
+Variable enc_tok : St -> token -> list N * St.              (* bytes of one token *)
 Variable dec_tok : St -> list N -> dres St.
 Variable Sess : Type.                                         (* session state of the custom column codec *)
 Variable cenc : Sess -> list Z -> list Z * Sess.                  (* value put on the wire for one cell *)
@@ -122,37 +122,54 @@ Record wstate := mkW {
 }.
 
 Definition emit (w : wstate) (t : token) : wstate :=
-  let (msgs, st') := enc_tok (wst w) t in
-  let bs := concat msgs in
+  let (bs, st') := enc_tok (wst w) t in
   mkW (wout w ++ bs) st' (wsess w) (crc_update (wcrc w) bs).
 
+(* The tokens of one batch.  Session updates of the custom codec and gob's writes do
+   not depend on each other, so the batch is described as: the tokens (with the
+   session threaded through the custom columns), then their emission in order. *)
+
 (* the harness' custom codec: one e.Encode per row, with per-stream session state *)
-Fixpoint enc_vals (w : wstate) (vals : list (list Z)) : wstate :=
+Fixpoint vals_toks (s : Sess) (vals : list (list Z)) : list token :=
   match vals with
-  | [] => w
-  | v :: r =>
-      let (x, s') := cenc (wsess w) v in
-      enc_vals (emit (mkW (wout w) (wst w) s' (wcrc w)) (TVal x)) r
+  | [] => []
+  | v :: r => TVal (fst (cenc s v)) :: vals_toks (snd (cenc s v)) r
+  end.
+Fixpoint vals_sess (s : Sess) (vals : list (list Z)) : Sess :=
+  match vals with
+  | [] => s
+  | v :: r => vals_sess (snd (cenc s v)) r
   end.
 
-Definition enc_col (w : wstate) (k : kind) (cl : list (list Z)) : wstate :=
+(* codec := f.HasCodec(col); Encode(codec); then f.Encode(col, e.enc) or e.enc.EncodeValue(f.Value(col)) *)
+Definition col_toks (s : Sess) (k : kind) (cl : list (list Z)) : list token :=
   match k with
-  | KCodec => enc_vals (emit w (TFlag true)) cl          (* f.Encode(col, e.enc) *)
-  | _ => emit (emit w (TFlag false)) (TCol cl)           (* e.enc.EncodeValue(f.Value(col)) *)
+  | KCodec => TFlag true :: vals_toks s cl
+  | _ => [TFlag false; TCol cl]
+  end.
+Definition col_sess (s : Sess) (k : kind) (cl : list (list Z)) : Sess :=
+  match k with KCodec => vals_sess s cl | _ => s end.
+
+Fixpoint cols_toks (s : Sess) (sch : list kind) (f : frame) : list token :=
+  match sch, f with
+  | k :: ks, cl :: cs => col_toks s k cl ++ cols_toks (col_sess s k cl) ks cs
+  | _, _ => []
+  end.
+Fixpoint cols_sess (s : Sess) (sch : list kind) (f : frame) : Sess :=
+  match sch, f with
+  | k :: ks, cl :: cs => cols_sess (col_sess s k cl) ks cs
+  | _, _ => s
   end.
 
-Fixpoint enc_cols (w : wstate) (sch : list kind) (f : frame) : wstate :=
-  match sch, f with
-  | k :: ks, cl :: cs => enc_cols (enc_col w k cl) ks cs
-  | _, _ => w
-  end.
+(* the tokens the checksum covers: Encode(f.Len()) and the columns *)
+Definition batch_toks (s : Sess) (sch : list kind) (f : frame) : list token :=
+  TLen (Z.of_nat (flen f)) :: cols_toks s sch f.
 
 (* Encoder.Write *)
 Definition enc_write (sch : list kind) (w : wstate) (f : frame) : wstate :=
-  let w0 := mkW (wout w) (wst w) (wsess w) 0 in                 (* e.crc.Reset() *)
-  let w1 := emit w0 (TLen (Z.of_nat (flen f))) in
-  let w2 := enc_cols w1 sch f in
-  emit w2 (TCrc (wcrc w2)).                                      (* Sum32 is taken before this write *)
+  let w0 := mkW (wout w) (wst w) (cols_sess (wsess w) sch f) 0 in     (* e.crc.Reset() *)
+  let w2 := fold_left emit (batch_toks (wsess w) sch f) w0 in
+  emit w2 (TCrc (wcrc w2)).                                            (* Sum32 is taken before this write *)
 
 Definition w_init (st0 : St) (s0 : Sess) : wstate := mkW [] st0 s0 0.
 
@@ -357,24 +374,50 @@ Arguments rcrc {St Sess}.
 Arguments rscratch {St Sess}.
 Arguments rbuf {St Sess}.
 Arguments rerr {St Sess}.
+Arguments TokOk {St Sess}.
+Arguments TokIoEOF {St Sess}.
+Arguments TokUnexpected {St Sess}.
+Arguments TokMalformed {St Sess}.
+Arguments TokStop {St Sess}.
+Arguments DcOk {St Sess}.
+Arguments DcErr {St Sess}.
+Arguments DfOk {St Sess}.
+Arguments DfErr {St Sess}.
 
 (* ================================================================ the specification of a stream of Reads *)
 (* What the property demands of a sequence of Reads over the batches written:
    a pending remainder is delivered first (as much as fits), otherwise the next
-   batch (whole if it fits, else its first rows), and EOF for ever once all
-   batches are consumed. *)
-Fixpoint spec_reads (batches : list frame) (pending : frame) (dests : list nat) : list rres :=
+   batch (whole if it fits, else its first rows), and once all batches are
+   consumed the error [fin] for ever ([EEOF] for an intact stream). *)
+Fixpoint spec_reads (fin : err) (batches : list frame) (pending : frame) (dests : list nat) : list rres :=
   match dests with
   | [] => []
   | d :: ds =>
       if Nat.eqb (flen pending) 0 then
         match batches with
-        | [] => RErr EEOF :: spec_reads [] pending ds
+        | [] => RErr fin :: spec_reads fin [] pending ds
         | b :: bs =>
-            if Nat.leb (flen b) d then ROk (flen b) b :: spec_reads bs pending ds
-            else ROk d (ftake d b) :: spec_reads bs (fdrop d b) ds
+            if Nat.leb (flen b) d then ROk (flen b) b :: spec_reads fin bs pending ds
+            else ROk d (ftake d b) :: spec_reads fin bs (fdrop d b) ds
         end
       else
         let n := Nat.min d (flen pending) in
-        ROk n (ftake n pending) :: spec_reads batches (fdrop n pending) ds
+        ROk n (ftake n pending) :: spec_reads fin batches (fdrop n pending) ds
   end.
+
+(* the frames delivered by a run of Reads, and column-wise concatenation of frames *)
+Definition delivered (obs : list rres) : list frame :=
+  flat_map (fun r => match r with ROk _ f => [f] | _ => [] end) obs.
+Definition colsel (c : nat) (fs : list frame) : list (list Z) :=
+  concat (map (fun f => nth c f []) fs).
+Definition colcat (ncols : nat) (fs : list frame) : frame :=
+  map (fun c => colsel c fs) (seq 0 ncols).
+Definition rows_of (batches : list frame) : nat :=
+  fold_right (fun b a => (flen b + a)%nat) 0%nat batches.
+
+(* ================================================================ the harness' custom column codec *)
+(* delta coding against the last value of the stream (per-stream session state, frame.Session.State) *)
+Definition cenc_delta (s : Z) (v : list Z) : list Z * Z :=
+  match v with [x] => ([(x - s)%Z], x) | _ => (v, s) end.
+Definition cdec_delta (s : Z) (w : list Z) : list Z * Z :=
+  match w with [d] => ([(d + s)%Z], (d + s)%Z) | _ => (w, s) end.
